@@ -40,11 +40,15 @@ type checkSpec struct {
 	// MustCount: a counter prefix that has to be non-zero, else the run is an
 	// infrastructure failure (e.g. the overlay seam was not compiled in).
 	MustCount string
+	// TotalFromWorker: the scenario enumerates a finite product; the thorough
+	// tier runs every index of it (the worker reports the size).
+	TotalFromWorker bool
 }
 
 // Budgets live here (driver side) so that tiers can be tuned without touching
 // the scenarios.
 var specs = map[string]*checkSpec{
+	"C12": {Property: "C12", Level: "fault_enumeration", Runs: map[string]int{"quick": 0, "thorough": 0}, Wall: map[string]int{"quick": 50, "thorough": 1500}, TotalFromWorker: true},
 	"C05": {Property: "C05", Level: "exploration", Overlay: true, Runs: map[string]int{"quick": 12000, "thorough": 300000}, Wall: map[string]int{"quick": 45, "thorough": 1500}, MustCount: "probe_site_"},
 	"C18": {Property: "C18", Level: "exploration", Runs: map[string]int{"quick": 20000, "thorough": 600000}, Wall: map[string]int{"quick": 50, "thorough": 1500}},
 	"C06": {Property: "C06", Level: "exploration", Runs: map[string]int{"quick": 30000, "thorough": 1000000}, Wall: map[string]int{"quick": 50, "thorough": 1500}},
@@ -86,6 +90,7 @@ type knownFinding struct {
 }
 
 type meta struct {
+	Total       int      `json:"total"`
 	Property    string   `json:"property"`
 	Name        string   `json:"name"`
 	Level       string   `json:"level"`
@@ -332,7 +337,7 @@ func cmdCheck(args []string) {
 	buildS := time.Since(start).Seconds()
 
 	// scenario metadata from the worker itself
-	md := describe(bin, id)
+	md := describe(bin, id, *tier)
 
 	nproc := *procs
 	if nproc == 0 {
@@ -342,6 +347,11 @@ func cmdCheck(args []string) {
 		nproc = runtime.NumCPU()
 	}
 	runs := spec.Runs[*tier]
+	exhaustive := false
+	if spec.TotalFromWorker && md.Total > 0 && (runs == 0 || runs >= md.Total) {
+		runs = md.Total
+		exhaustive = true
+	}
 	if *runsFlag > 0 {
 		runs = *runsFlag
 	}
@@ -520,6 +530,8 @@ func cmdCheck(args []string) {
 		fresh = append(fresh, v)
 	}
 
+	exhaustiveDone = exhaustive && !total.StoppedEarly && total.Runs >= md.Total
+	productSize = md.Total
 	writeEvidence(id, *tier, seed, spec, md, total, len(digests), len(pairs), wallS, buildS, len(fresh), len(knownHit), nproc)
 
 	fmt.Printf("%s tier=%s seed=%d runs=%d steps=%d distinct_nontrivial=%d wall=%.1fs (build %.1fs) violations=%d known=%d\n",
@@ -534,6 +546,9 @@ func cmdCheck(args []string) {
 	os.Exit(0)
 }
 
+var exhaustiveDone bool
+var productSize int
+
 var crashHandlers = map[string]func(crashed []string, logs []string) bool{}
 
 func results2logs(dir string) []string {
@@ -541,10 +556,10 @@ func results2logs(dir string) []string {
 	return m
 }
 
-func describe(bin, id string) *meta {
+func describe(bin, id, tier string) *meta {
 	cmd := exec.Command(bin, "-test.run", "TestDescribe")
 	cmd.Dir = verifDir
-	cmd.Env = append(os.Environ(), "VERIF_CHECK="+id)
+	cmd.Env = append(os.Environ(), "VERIF_CHECK="+id, "VERIF_TIER="+tier)
 	out, err := cmd.CombinedOutput()
 	if err != nil {
 		infra("describe failed: %v\n%s", err, out)
@@ -612,6 +627,10 @@ func writeEvidence(id, tier string, seed uint64, spec *checkSpec, md *meta, t *a
 		"known_findings_hit":     known,
 		"tools":                  toolVersions(),
 		"scenario":               md.Name,
+	}
+	if productSize > 0 {
+		cov["product_size"] = productSize
+		cov["exhaustive"] = exhaustiveDone
 	}
 	if overlayInfo != "" {
 		var sites []string
